@@ -8,7 +8,7 @@ COQ = os.path.join(ROOT, "coq")
 OCAML = os.path.join(ROOT, "ocaml")
 HARNESS = os.path.join(ROOT, "harness")
 TARGET = os.path.join(CACHE, "target")
-EVID = os.path.join(ROOT, "evidence")
+EVID = os.path.join(ROOT, "evidence") if REPO == "/repo" else os.path.join(CACHE, "evidence-alt" + os.environ.get("VERIF_LANE", ""))
 REPLAYS = os.path.join(ROOT, "replays")
 NPROC = min(16, os.cpu_count() or 1)
 
@@ -147,8 +147,9 @@ def build_harness(profile="dev"):
     if REPO != "/repo":
         # development aid: run the checks against another checkout (VERIF_REPO), e.g. a clean worktree while
         # /repo itself carries a seeded change.  Registered commands never set VERIF_REPO.
-        hdir = os.path.join(CACHE, "harness-alt")
-        tdir = TARGET + "-alt"
+        lane = os.environ.get("VERIF_LANE", "")
+        hdir = os.path.join(CACHE, "harness-alt" + lane)
+        tdir = TARGET + "-alt" + lane
         shutil.rmtree(hdir, ignore_errors=True)
         shutil.copytree(HARNESS, hdir, ignore=shutil.ignore_patterns("target"))
         ct = open(os.path.join(hdir, "Cargo.toml")).read().replace('path = "/repo"', f'path = "{REPO}"')
